@@ -63,6 +63,9 @@ RISKY = [
     ["[x](https://e.org){#lnku .c} <https://e.org>{#lnka} [w](wiki:A){#lnkw}"], ["[x](inv:k#alpha){#lnki} [p](path:other.md){#lnkp} [q](project:other.md){#lnkq}"],
     ["# Local", "", "[a](#local){#la} [](#local){#lb} [c](#far-target){#la}"], ["`code`{#cid .c} *em*{#eid} [span]{#sid} ![i](x.png){#iid} $m${#mid}"],
     ["> [x](#far-target){#qlnk}", "", "- [y](#far-target){#llnk}", "", "```{note}", "[z](#far-target){#nlnk}", "```"],
+    # html blocks that are only partly convertible, their names linked to
+    ['<img src="a.png" name="hx"><b>tail</b>', "", "[t](#hx) [](#hx)"], ['<div class="admonition" name="ha"><p>x</p></div><span>tail</span>', "", "[t](#ha)"], ['<img src="a.png" name="hy"><img alt="nosrc">', "", "[t](#hy)"],
+    ['<img src="a.png" name="hz">', '<div class="admonition" name="hz"><p>x</p></div>', "", "[t](#hz)"], ['text <img src="a.png" name="hi"> <b>b</b> [t](#hi)'], ['<div class="admonition" name="hq">', "<img src=\"q.png\" name=\"hq2\">", "</div>", "", "[a](#hq) [b](#hq2)"],
     # headings inside directives that allow sections in their body
     ["# top", "", "````{mv-titled}", "## inner", "", "text", "", "#### deeper", "````", "", "### after"], ["````{mv-titled}", "# first heading of the document", "", "## sub", "````"],
     ["## h2", "", "````{mv-titled}", "### inner3", "", "# inner1", "````"], ["````{only} html", "## only heading", "", "text", "````"], ["# t", "", "````{only} html", "### skip", "````", "", "## u"],
